@@ -274,10 +274,33 @@ def sink_string_rules(ctx, prog, rule="C16.G4"):
     ctx.ob(rule + "s", "sink_string: realloc vs memcpy", "the block is at least as large as offset + bytes copied + 1 (terminator)",
            alloc is not None and off is not None and ln is not None and L.geq(alloc, L.add(L.add(off, ln), {1: 1})),
            {"alloc": L.show(alloc), "offset": L.show(off), "copied": L.show(ln)}, nontrivial=True)
-    ctx.ob(rule + "s", "sink_string: offset", "new data is appended right after the existing content (offset = old length) and exactly "
-           "`size` bytes from `buffer` are copied", off == env.get("string_size", {"string_size": 1}) or off == {"string_size": 1}
+    # the offset is one variable whose every definition is 0 (no string yet) or strlen() of the caller's current string
+    offvar = None
+    if off is not None and len(off) == 1 and list(off.values()) == [1] and isinstance(list(off)[0], str):
+        offvar = list(off)[0]
+    defs = []
+    for n in F.walk():
+        if n["k"] == "VarDecl" and n["name"] == offvar and n.get("c"):
+            defs.append(strip(n["c"][0]))
+        elif n["k"] in ("BinaryOperator", "CompoundAssignOperator") and n.get("op", "").endswith("=") and n["op"] not in ("==", "!=", "<=", ">=") \
+                and expr_str(strip(n["c"][0])) == offvar:
+            defs.append(strip(n["c"][1]) if n["op"] == "=" else n)
+
+    def len_expr(x):
+        x = strip(x)
+        if x["k"] == "ConditionalOperator":
+            return len_expr(x["c"][1]) and len_expr(x["c"][2])
+        if x.get("val") == 0 and x["k"] == "IntegerLiteral":
+            return True
+        if x["k"] == "CallExpr" and x.get("callee") == "strlen":
+            a = strip(x["c"][1])
+            return a["k"] == "UnaryOperator" and a["op"] == "*" and strip(a["c"][0])["k"] == "DeclRefExpr"
+        return False
+    ctx.ob(rule + "s", "sink_string: offset", "new data is appended right after the existing content: the offset is a variable that is only "
+           "ever 0 (no string yet) or strlen() of the caller's string as it is now - not a length remembered from an earlier call - and "
+           "exactly `size` bytes from `buffer` are copied", offvar is not None and defs and all(len_expr(d) for d in defs)
            and ln == {"size": 1} and expr_str(mc[0]["c"][2]) == "buffer",
-           {"offset": L.show(off), "copied": L.show(ln), "source": expr_str(mc[0]["c"][2])})
+           {"offset": L.show(off), "definitions": [expr_str(d)[:60] for d in defs], "copied": L.show(ln), "source": expr_str(mc[0]["c"][2])})
     # terminator index
     term = [n for n in F.walk() if n["k"] == "BinaryOperator" and n["op"] == "=" and strip(n["c"][0])["k"] == "ArraySubscriptExpr"
             and strip(n["c"][1]).get("val") == 0]
@@ -430,5 +453,7 @@ def check(ctx):
     run_rules(ctx, prog)
     from . import c08
     c08.expiry_contract(ctx, prog)     # "an expired deadline yields the timeout error" needs the deadline to be reported as expired
+    from . import c09
+    c09.poll_rules(ctx, prog)          # ... and poll to report it at once, as the only event, whatever else is pending (C09.V3d)
     from .. import cxxrules
     cxxrules.c16_mirror(ctx)
